@@ -232,6 +232,15 @@ def plan_for(prop, tier, seed):
                    "i_cw::step_no_suffix", "i_cw::find_two_calls", "i_cw::leftmost_two_calls"]
     elif prop == "C09":
         P.hand += (U_SER_QUICK if q else U_SER_ALL)
+        # real images of built automata: the native round-trip cross-check (see main.py image_notes) needs
+        # automata in the plan; T6 is the cheapest family to carry them
+        for e in (Entry("bw_ser_unit_u128", "bytewise", "standard", corpus.bw_fixed()["unit"], vtype="u128", values=[0, 2 ** 64 - 1, 3, 3, 9]),
+                  Entry("bw_ser_bin_i16_lo", "bytewise", "longest", corpus.bw_fixed()["bin"], vtype="i16"),
+                  Entry("bw_ser_chain_u8_fi", "bytewise", "first", corpus.bw_fixed()["chain"], vtype="u8"),
+                  Entry("cw_ser_w123_u32", "charwise", "standard", corpus.cw_fixed()["w123"], vtype="u32"),
+                  Entry("cw_ser_a3_u8_fi", "charwise", "first", corpus.cw_fixed()["a3"], vtype="u8"),
+                  Entry("cw_ser_thai_u64_lo", "charwise", "longest", corpus.cw_fixed()["thai"], vtype="u64", values=[2 ** 64 - 1, 0, 5, 5])):
+            P.add(e, "T6")
         # A-img: whole images with 0 / 1 element per vector, symbolic content (larger images: out of reach)
         P.hand += ["a_img::bw_image_0", "a_img::bw_image_1", "a_img::cw_image_0", "a_img::cw_image_1"]
     elif prop == "C11":
